@@ -85,6 +85,26 @@ CLAIMED = {
             "the real unify must return exactly Join(a, b) of the specification, for which TLC has checked Sub(a, Join) /\\ Sub(b, Join) and Join(a, a) = a on all pairs of Full(1) and the folded join on triples of Reduced(1); seeded random pairs of depth <= 3",
             "bounded family; unify_all is checked through folded triples",
             "DESIGN.md §6 C15"),
+    "C27": (MC, "TLC evaluates Ref.tla with a `watch` node (first value of one seeded sub-expression) on generated programs; a real JSON session is asked eval_up_to at that expression and must answer that value",
+            "seeded programs x seeded watched sub-expression of the top level (literals, variables, operators, parentheses, lists, tuples, constructors, calls, method calls, also inside lambda bodies), top level as a block or a test; the answer must be the first value Ref.tla records, or an error exactly when the program fails before reaching the expression",
+            "let / assignment / loop positions (special reporting rules) and expressions a successful run never evaluates are not judged; bounded by the generator",
+            "DESIGN.md §6 C27"),
+    "C28": (MC, "TLC trace validation (LspTrace.tla over Lsp.tla) of the framed traffic of a real `garden lsp` process under seeded message sequences; diagnostics compared with `garden check --json`",
+            "every recorded session (requests of every method at in-range and out-of-range positions, unknown documents and methods, malformed parameters, frames that are not JSON-RPC, hostile documents) must be a behaviour of Lsp.tla: one response per request id, none for notifications, one publishDiagnostics per open/change/close, exit status from shutdown; each diagnostics payload equals the checker's",
+            "requests are sent one at a time (the server is single threaded); message texts of diagnostics are not compared",
+            "DESIGN.md §6 C28"),
+    "C29": (MC, "TLC checks the round-trip / clamping laws of LspPos.tla on every small document and prints every conversion; hook `lsppos` evaluates the real conversion functions on the same documents; LSP edits applied by an independent applier are compared with the command-line refactorings",
+            "exhaustive over documents of <= 3 (quick) / 4 (thorough) characters from {1,2,3,4-byte characters, LF, CR}: every boundary offset, every (line, character) grid point, the whole-document range; seeded longer documents; formatting, rename and five code actions on the repository's files, plain and with multi-byte text / CR LF / no final newline",
+            "edit equality is sampled (seeded offsets and ranges); lines end at LF only",
+            "DESIGN.md §6 C29"),
+    "C32": (MC, "TLC model checks the documentation's laws against Prelude.tla's definitions and prints every call with its specified result; each call is replayed into the interpreter with a step budget",
+            "every argument tuple over strings of <= 2 (quick) / 3-4 (thorough) characters from {a, b, e-acute, space, newline}, needles <= 2 including the empty one, 8 boundary integers, integer lists <= 3: the interpreter's string_repr must equal the specification's value (or raise where it says so) and every call must finish within 200000 steps",
+            "map / filter with three function arguments each; whitespace = space and the empty-needle meaning are PINNED choices of the specification",
+            "DESIGN.md §6 C32"),
+    "C34": (MC, "TLC enumerates every import project over two files x two names and (restricted) three files x one name, checks that the loader model terminates and compares it with the declarative visibility rule; sampled projects are materialised and probed with the real run and check",
+            "exhaustive in the model (45927 projects: definitions none/private/public, imports none/plain/alias including self imports and cycles, imports before or after definitions); replayed: seeded sample biased to cyclic projects, every root x every name x direct / aliased / from-inside-another-file probe, at run time and (root level) at check time",
+            "definitions are functions; which definition wins a name collision is not specified by the property and only constrained to the files that may provide it",
+            "DESIGN.md §6 C34"),
     "C30": (MC, "TLC model checking of Nrepl.tla (all interleavings of reader / workers / flushers / writer on 7 client scenarios, safety + liveness) and TLC trace validation (NreplTrace.tla) of traces recorded from the real server under seeded schedule perturbation",
             "the design is checked exhaustively on bounded scenarios; every recorded send/recv log of the real server must be explained by some interleaving of the specification's silent server steps with all invariants holding; corrupted copies of accepted traces are rejected on every run",
             "the exhaustive claim is about the model; trace validation covers the schedules produced by the kernel and hook H3; error message texts are not compared",
